@@ -245,6 +245,29 @@ pub fn suite_c14(ctx: &mut Ctx) {
                     gcall(ctx, t, n, n, "to_x", "f", &[s]);
                 }
             }
+            // generic -> narrower fixed posit at the target's rounding boundaries: the source patterns nearest to every
+            // P8E0 midpoint and to a sample of the P16E1 midpoints, +- 1, 2 source ulps
+            if n >= 10 {
+                let mut tv: Vec<(f64, &'static str)> = Vec::new();
+                for m in (1..256u64).step_by(2) {
+                    tv.push((gen::to_f64_exact(9, 0, m), "to_p8"));
+                }
+                for _ in 0..ctx.q(if n >= 28 { 400 } else { 60 }, if n >= 28 { 8000 } else { 1000 }) {
+                    let m = (ctx.rng.gen_range(0..32768u64) << 1) | 1;
+                    tv.push((gen::to_f64_exact(17, 1, m), "to_p16"));
+                }
+                for &(v, op) in &tv {
+                    let base = match guarded(|| exec_px_m(t, n, 0, "from_f64", "m", &[v.to_bits()])) { Some(Outcome::Ok(r)) => r[0].u() >> (32 - n), _ => continue };
+                    for d in [-2i64, -1, 0, 1, 2] {
+                        let p = ((base as i64 + d) as u64) & gen::mask(n);
+                        if p == 0 || p == gen::nar(n) {
+                            continue;
+                        }
+                        gcall(ctx, t, n, 0, op, "f", &[store(n, p)]);
+                        gcall(ctx, t, n, 0, op, "f", &[store(n, gen::neg(n, p))]);
+                    }
+                }
+            }
             // float -> generic: every rounding boundary of the target (small N) or lattice boundaries, +- float ulps
             let mids: Vec<u64> = if n <= 10 { (0..(1u64 << (n - 1))).map(|p| 2 * p + 1).collect() } else {
                 let lat = gen::lattice(n, es, &mut ctx.rng, 0);
